@@ -555,7 +555,16 @@ func (g *GoFakeS3) headObject(
 		return err
 	}
 
-	obj, err := g.storage.HeadObject(bucket, object)
+	var obj *Object
+	var err error
+	if versionID == "" {
+		obj, err = g.storage.HeadObject(bucket, object)
+	} else {
+		if g.versioned == nil {
+			return ErrNotImplemented
+		}
+		obj, err = g.versioned.HeadObjectVersion(bucket, object, versionID)
+	}
 	if err != nil {
 		return err
 	}
